@@ -1,5 +1,5 @@
 (* C03 - placeholder while the proofs are being written *)
-From DnsV Require Import Base.Ip Spec.Lpm.
+From DnsV Require Import Base.Bytes Base.Ip Spec.Lpm.
 Open Scope N_scope.
 Theorem C03_tmp : lpm [] V4 0 0 = None.
 Proof. reflexivity. Qed.
